@@ -55,6 +55,7 @@ class Roles:
         self.seq_elem = {}
         self.index_vars = {}
         self.opaque_index = set()       # index variables that are dual by name only (S[first_idx] <-> S[last_idx])
+        self.singleton_index = set()    # source texts X of index pairs with X[0] == X[1] in the compared code: S[X[c]] is one opaque position
         self.coord_funcs = set()        # callees returning a coordinate
         self.coord_iterables = set()    # dicts / collections whose keys are coordinates
         self.coord_src = set()          # source texts of expressions that are coordinates (e.g. 'best_pair[0]')
@@ -283,6 +284,9 @@ class Reflector:
                 return "%s[%s]" % (base, self.fmt({"1": 1 - idx.value} if 1 - idx.value else {}))
             if bt == "S" and isinstance(idx, ast.Name) and (idx.id in self.r.opaque_index or idx.id in self.r.index_vars):
                 return "%s[%s]" % (base, self.name(idx.id))
+            if bt == "S" and isinstance(idx, ast.Subscript) and src(idx.value) in self.r.singleton_index \
+                    and isinstance(idx.slice, ast.Constant) and idx.slice.value in (0, 1):
+                return "%s[ix:%s]" % (base, src(idx.value))
             if bt not in ("S", "I", "T") and self.ty(idx) == "C":
                 return "%s[C:%s]" % (base, self.pos_coord(idx))
             if bt == "S" and self.mirror:
